@@ -6,6 +6,7 @@ import (
 	"testing"
 	"time"
 
+	"github.com/33cn/chain33/common/merkle"
 	"github.com/33cn/chain33/types"
 
 	"verifsim/simnode"
@@ -39,16 +40,19 @@ const (
 	mutDupTail
 	mutAlterTx
 	mutAlterSig
+	mutBlockSig // the block-level signature (not covered by the block hash) does not verify
 	// invalid only because of a duplicate, otherwise consistently executed (own
 	// header, own hash): a transaction of the block twice, or one of an ancestor
 	mutDupFirstConsistent
 	mutDupLastConsistent
 	mutReplayAncestorConsistent
+	mutBadSigConsistent // a transaction signature does not verify; the header commits to exactly these transactions
 	mutLast
 )
 
 var mutNames = map[int]string{mutTxHash: "txhash", mutStateHash: "statehash", mutHeight: "height", mutParent: "parent",
 	mutDupFirstConsistent: "consistent-dup-first", mutDupLastConsistent: "consistent-dup-last", mutReplayAncestorConsistent: "consistent-replay-ancestor",
+	mutBlockSig: "block-sig", mutBadSigConsistent: "consistent-bad-tx-sig",
 	mutDropTx: "drop-tx", mutAddTx: "add-tx", mutSwapTx: "swap-tx", mutDupTail: "dup-tail", mutAlterTx: "alter-tx", mutAlterSig: "alter-sig"}
 
 // tamper returns a corrupted copy of blk, or nil when the corruption does not
@@ -102,6 +106,10 @@ func tamper(w *World, blk *types.Block, kind int, salt int64) *types.Block {
 		s := append([]byte(nil), c.Txs[i].Signature.Signature...)
 		s[len(s)-1-int(salt)%8] ^= 0x01
 		c.Txs[i].Signature.Signature = s
+	case mutBlockSig:
+		k := simnode.AccountKey(int(salt) % NAccounts)
+		sig := k.Priv.Sign([]byte(fmt.Sprintf("not this block %d", salt)))
+		c.Signature = &types.Signature{Ty: types.SECP256K1, Pubkey: k.Priv.PubKey().Bytes(), Signature: sig.Bytes()}
 	default:
 		return nil
 	}
@@ -131,6 +139,10 @@ func (tamperEngine) Generate(prop string, r *simrt.RNG, tier string, run int) *s
 	// the shape that was present.
 	if r.Chance(2, 5) {
 		sc.Knobs["open"] = 1
+	}
+	// the node's pool already holds (hence has verified) the transactions of the valid blocks
+	if r.Chance(1, 2) {
+		sc.Knobs["poolknows"] = 1
 	}
 	var late []simrt.Op
 	for _, id := range order {
@@ -174,7 +186,12 @@ func (tamperEngine) run(ctx *simrt.Ctx) *simrt.Violation {
 	w := NewWorld(ctx, "fac-"+uid, simnode.Opts{})
 	defer w.Fac.Close()
 	defer w.Fac.Disk.Remove()
-	sut := simnode.New(simnode.Opts{ID: "sut-" + uid, StubMempool: true})
+	pooled := map[string]*types.Transaction{}
+	var knows func([]byte) *types.Transaction
+	if sc.Knob("poolknows", 0) == 1 {
+		knows = func(h []byte) *types.Transaction { return pooled[string(h)] }
+	}
+	sut := simnode.New(simnode.Opts{ID: "sut-" + uid, StubMempool: true, MempoolTx: knows})
 	defer sut.Close()
 	defer sut.Disk.Remove()
 	simrt.Settle()
@@ -217,6 +234,9 @@ func (tamperEngine) run(ctx *simrt.Ctx) *simrt.Violation {
 		case "blk":
 			if b := w.BuildOp(op); b != nil {
 				byHash[string(b.Hash)] = b
+				for _, tx := range b.Block.Txs {
+					pooled[string(tx.Hash())] = tx
+				}
 				if b.Height > maxH {
 					maxH = b.Height
 				}
@@ -240,36 +260,52 @@ func (tamperEngine) run(ctx *simrt.Ctx) *simrt.Violation {
 					if !bytes.Equal(lastHash(sut), b.Block.ParentHash) {
 						continue
 					}
-					txs := append([]*types.Transaction(nil), b.Block.Txs...)
-					switch kind {
-					case mutDupFirstConsistent:
-						txs = append(txs, txs[0])
-					case mutDupLastConsistent:
-						txs = append(txs, txs[len(txs)-1])
-					default:
-						if b.Up == nil {
+					if kind == mutBadSigConsistent {
+						bad = types.Clone(b.Block).(*types.Block)
+						i := int(op.Int(4)) % len(bad.Txs)
+						if bad.Txs[i].Signature == nil || len(bad.Txs[i].Signature.Signature) == 0 {
 							continue
 						}
-						anc := b.Up.Chain()
-						a := anc[int(op.Int(4))%len(anc)]
-						txs = append(txs, a.Block.Txs[int(op.Int(4))%len(a.Block.Txs)])
+						sg := append([]byte(nil), bad.Txs[i].Signature.Signature...)
+						sg[len(sg)-1-int(op.Int(4))%8] ^= 0x01
+						bad.Txs[i].Signature.Signature = sg
+						bad.TxHash = merkle.CalcMerkleRoot(w.Cfg, bad.Height, bad.Txs)
+						if bytes.Equal(bad.TxHash, b.Block.TxHash) {
+							continue // the header does not commit to signatures at this height
+						}
 					}
-					rawID++
-					rb := w.BuildRaw(rawID, b.Parent, 0, b.Block.BlockTime-parentTime(w, b), txs)
-					if rb == nil {
-						continue
-					}
-					if len(rb.Block.Txs) != len(txs) {
-						// the block producer's own duplicate filter removed the copy: what
-						// was built is an ordinary valid block, not a corrupted one
-						delete(w.Blocks, rawID)
+					if bad == nil {
+						txs := append([]*types.Transaction(nil), b.Block.Txs...)
+						switch kind {
+						case mutDupFirstConsistent:
+							txs = append(txs, txs[0])
+						case mutDupLastConsistent:
+							txs = append(txs, txs[len(txs)-1])
+						default:
+							if b.Up == nil {
+								continue
+							}
+							anc := b.Up.Chain()
+							a := anc[int(op.Int(4))%len(anc)]
+							txs = append(txs, a.Block.Txs[int(op.Int(4))%len(a.Block.Txs)])
+						}
+						rawID++
+						rb := w.BuildRaw(rawID, b.Parent, 0, b.Block.BlockTime-parentTime(w, b), txs)
+						if rb == nil {
+							continue
+						}
+						if len(rb.Block.Txs) != len(txs) {
+							// the block producer's own duplicate filter removed the copy: what
+							// was built is an ordinary valid block, not a corrupted one
+							delete(w.Blocks, rawID)
+							w.Order = w.Order[:len(w.Order)-1]
+							ctx.Probe("consistent_dup_removed_by_producer")
+							continue
+						}
+						delete(w.Blocks, rawID) // not a block of the valid tree
 						w.Order = w.Order[:len(w.Order)-1]
-						ctx.Probe("consistent_dup_removed_by_producer")
-						continue
+						bad = rb.Block
 					}
-					delete(w.Blocks, rawID) // not a block of the valid tree
-					w.Order = w.Order[:len(w.Order)-1]
-					bad = rb.Block
 				} else {
 					bad = tamper(w, b.Block, kind, op.Int(4))
 				}
